@@ -3,6 +3,7 @@ package main
 import (
 	"go/ast"
 	"go/token"
+	"go/types"
 )
 
 // Syntax normalisation applied once after type-checking, so that rules see
@@ -74,6 +75,9 @@ func (p *Prog) normStmt(s ast.Stmt) ast.Stmt {
 	case *ast.SwitchStmt:
 		for _, cc := range x.Body.List {
 			p.normList(cc.(*ast.CaseClause).Body)
+		}
+		if x.Tag == nil && x.Init != nil {
+			p.inlineSwitchInit(x)
 		}
 		if x.Tag == nil && x.Init == nil {
 			if ifs := p.switchToIfChain(x); ifs != nil {
@@ -330,4 +334,124 @@ func freeContinue(list []ast.Stmt) bool {
 		ast.Inspect(s, visit)
 	}
 	return found
+}
+
+// inlineSwitchInit: `switch v := X; { case f(v): ... }` where X is a side-effect-free operand (variable,
+// field, constant-indexed element) and v is read only in the case conditions: the conditions are all
+// evaluated before any body runs, so v can be replaced by X there and the init dropped.
+func (p *Prog) inlineSwitchInit(sw *ast.SwitchStmt) {
+	as, ok := sw.Init.(*ast.AssignStmt)
+	if !ok || as.Tok != token.DEFINE || len(as.Lhs) != 1 || len(as.Rhs) != 1 {
+		return
+	}
+	id, ok := as.Lhs[0].(*ast.Ident)
+	if !ok {
+		return
+	}
+	obj := p.Info.Defs[id]
+	x := ast.Unparen(as.Rhs[0])
+	pure := false
+	switch y := x.(type) {
+	case *ast.Ident:
+		pure = true
+	case *ast.SelectorExpr:
+		_, pure = p.Info.Selections[y]
+	case *ast.IndexExpr:
+		if _, isConst := p.constInt64(y.Index); isConst {
+			switch ast.Unparen(y.X).(type) {
+			case *ast.Ident, *ast.SelectorExpr:
+				pure = true
+			}
+		}
+	}
+	if !pure || obj == nil {
+		return
+	}
+	// the declared type must be the operand's type (no implicit conversion through the definition)
+	if tx := p.typeOf(x); tx == nil || !types.Identical(tx, obj.Type()) {
+		return
+	}
+	usedInBody := false
+	for _, cc := range sw.Body.List {
+		for _, st := range cc.(*ast.CaseClause).Body {
+			ast.Inspect(st, func(n ast.Node) bool {
+				if i, ok := n.(*ast.Ident); ok && p.Info.Uses[i] == obj {
+					usedInBody = true
+				}
+				return !usedInBody
+			})
+		}
+	}
+	if usedInBody {
+		return
+	}
+	var subst func(e ast.Expr) (ast.Expr, bool)
+	subst = func(e ast.Expr) (ast.Expr, bool) {
+		switch y := e.(type) {
+		case *ast.Ident:
+			if p.Info.Uses[y] == obj {
+				return x, true
+			}
+			return e, true
+		case *ast.BasicLit:
+			return e, true
+		case *ast.ParenExpr:
+			n, ok := subst(y.X)
+			y.X = n
+			return y, ok
+		case *ast.UnaryExpr:
+			n, ok := subst(y.X)
+			y.X = n
+			return y, ok
+		case *ast.BinaryExpr:
+			l, ok1 := subst(y.X)
+			r, ok2 := subst(y.Y)
+			y.X, y.Y = l, r
+			return y, ok1 && ok2
+		case *ast.SelectorExpr, *ast.IndexExpr, *ast.CallExpr:
+			// allowed only when v does not occur inside
+			uses := false
+			ast.Inspect(y, func(n ast.Node) bool {
+				if i, ok := n.(*ast.Ident); ok && p.Info.Uses[i] == obj {
+					uses = true
+				}
+				return !uses
+			})
+			return e, !uses
+		}
+		return e, false
+	}
+	// dry run on copies is not possible without type info; check first, then substitute
+	okAll := true
+	for _, cc := range sw.Body.List {
+		for _, e := range cc.(*ast.CaseClause).List {
+			ast.Inspect(e, func(n ast.Node) bool {
+				switch n.(type) {
+				case nil, *ast.Ident, *ast.BasicLit, *ast.ParenExpr, *ast.UnaryExpr, *ast.BinaryExpr:
+					return true
+				case *ast.SelectorExpr, *ast.IndexExpr, *ast.CallExpr:
+					ast.Inspect(n, func(m ast.Node) bool {
+						if i, ok := m.(*ast.Ident); ok && p.Info.Uses[i] == obj {
+							okAll = false
+						}
+						return okAll
+					})
+					return false
+				}
+				okAll = false
+				return false
+			})
+		}
+	}
+	if !okAll {
+		return
+	}
+	for _, cc := range sw.Body.List {
+		cl := cc.(*ast.CaseClause)
+		for i, e := range cl.List {
+			n, _ := subst(e)
+			cl.List[i] = n
+		}
+	}
+	sw.Init = nil
 }
